@@ -235,6 +235,14 @@ func init() {
 		i.preemptBudget = int(a[0].(int64))
 		return nil
 	})
+	rt("LateGoroutine", func(i *Interp, fr *frame, a []value) value {
+		// from now on: one goroutine started later on the path may be chosen (symbolically) to be
+		// late: whenever the scheduler would hand it the processor while another goroutine can
+		// run, it is either released (runs normally from then on) or passed over, at most n times
+		i.lateBudget = int(a[0].(int64))
+		i.lateVictim, i.lateLeft = nil, 0
+		return nil
+	})
 	rt("Yield", func(i *Interp, fr *frame, a []value) value { i.pollYield(); return nil })
 	rt("WaitIdle", func(i *Interp, fr *frame, a []value) value {
 		// block the calling thread until every other thread is done or blocked
